@@ -1,4 +1,5 @@
 mod area;
+mod links;
 mod paint;
 mod selection;
 mod binfmt;
@@ -49,6 +50,7 @@ fn main() {
         "area" => area::area(&a),
         "selection" => selection::selection(&a),
         "paint" => paint::paint(&a),
+        "links" => links::links(&a),
         "igs" => igs::igs(&a),
         "rip" => rip::rip(&a),
         other => {
